@@ -165,3 +165,300 @@ Definition break_row (rows segs : list bin) (min_probes : Z) (k : brow) : Prop :
     k = mkBrow g (b_chr cur) (b_end cur) (Qred (b_log2 next - b_log2 cur))
           (Z.of_nat (countb (fun b => b_start b <? b_end cur) (gene_bins (b_chr cur) g rows)))
           (Z.of_nat (countb (fun b => b_end cur <=? b_start b) (gene_bins (b_chr cur) g rows))).
+
+(* ==== by_gene on ANY table (no precondition): position ranges ================================ *)
+
+Local Open Scope nat_scope.
+
+(* the chromosomes of a table and the gene names of a chromosome's bins (split on commas), each in
+   order of first occurrence *)
+Definition chroms_in_order (rows : list bin) : list string := dedup (map b_chr rows).
+Definition genes_in_order (rows : list bin) : list string := dedup (flat_map genes_of rows).
+
+Definition carries (g : string) (b : bin) : bool := mem_string g (genes_of b).
+
+(* position of the first / last element satisfying p (0 if there is none) *)
+Fixpoint first_idx {A} (p : A -> bool) (l : list A) : nat :=
+  match l with [] => 0 | b :: t => if p b then 0 else S (first_idx p t) end.
+Fixpoint last_idx {A} (p : A -> bool) (l : list A) : nat :=
+  match l with [] => 0 | b :: t => if existsb p t then S (last_idx p t) else 0 end.
+
+Definition first_pos (g : string) (rows : list bin) : nat := first_idx (carries g) rows.
+Definition last_pos (g : string) (rows : list bin) : nat := last_idx (carries g) rows.
+
+(* every gene name of the chromosome with the positions of its first and last bin, in order of first
+   occurrence *)
+Definition spans_in_order (rows : list bin) : list gentry :=
+  map (fun g => (g, first_pos g rows, last_pos g rows)) (genes_in_order rows).
+Definition real_spans (ign : list string) (rows : list bin) : list gentry :=
+  filter (fun e => negb (mem_string (ge_name e) ign)) (spans_in_order rows).
+
+(* a yielded group as a range of positions a..b-1 *)
+Definition prange := (string * nat * nat)%type.
+Definition pr_label (r : prange) : string := fst (fst r).
+Definition pr_a (r : prange) : nat := snd (fst r).
+Definition pr_b (r : prange) : nat := snd r.
+Definition in_prange (i : nat) (r : prange) : bool := (pr_a r <=? i) && (i <? pr_b r).
+(* how many of the yielded groups contain the bin at position i *)
+Definition times_yielded (rs : list prange) (i : nat) : nat := countb (in_prange i) rs.
+Definition groups_of_ranges (rows : list bin) (rs : list prange) : list group :=
+  map (fun r => (pr_label r, slice rows (pr_a r) (pr_b r))) rs.
+
+(* What by_gene does with the genes S = (g1,f1,l1), (g2,f2,l2), ... taken in order of first
+   occurrence, on a chromosome of n bins: before each gene, the stretch from the end of the PREVIOUS
+   gene of that order to the gene's first bin (if not empty) as "Antitarget", then the gene's
+   positions first..last; at the end the stretch from the end of the last gene to the end. *)
+Definition gap (a b : nat) : list prange := if a <? b then [("Antitarget"%string, a, b)] else [].
+Fixpoint ranges_from (n prev : nat) (spans : list gentry) : list prange :=
+  match spans with
+  | [] => gap prev n
+  | (g, f, l) :: t => gap prev f ++ (g, f, S l) :: ranges_from n (S l) t
+  end.
+Definition yielded_ranges (ign : list string) (rows : list bin) : list prange :=
+  ranges_from (length rows) 0 (real_spans ign rows).
+
+(* end of the last gene of a prefix of S (0 for the empty prefix), first bin of the first gene of a
+   suffix (n for the empty suffix) *)
+Definition end_of (pre : list gentry) : nat :=
+  match rev pre with [] => 0 | e :: _ => S (ge_last e) end.
+Definition start_of (n : nat) (post : list gentry) : nat :=
+  match post with [] => n | e :: _ => ge_first e end.
+
+Local Open Scope Z_scope.
+
+(* ==== the complete report tables ================================================================ *)
+From CNV Require Import Model.Reports.
+From CNV Require Model.Center.
+
+(* ---- the X adjustment (shift_xx): which bins, by how much ---------------------------------------- *)
+
+(* the name of X follows the table's first row: "chrX" if it starts with "chr", else "X" *)
+Definition x_name (rows : list bin) : string := x_label rows.
+
+Definition in_par_x (p : Center.parb) (b : bin) : bool :=
+  let '(s1, e1, s2, e2) := Center.par_x p in
+  ((s1 <=? b_start b) && (b_end b <=? e1)) || ((s2 <=? b_start b) && (b_end b <=? e2)).
+
+(* on X and, when a genome build is given, not inside PAR1 / PAR2 of X *)
+Definition on_x_nonpar (build : option Center.parb) (rows : list bin) (b : bin) : bool :=
+  String.eqb (b_chr b) (x_name rows) &&
+  match build with Some p => negb (in_par_x p b) | None => true end.
+
+Definition shift_by (d : Q) (build : option Center.parb) (rows : list bin) : list bin :=
+  map (fun b => if on_x_nonpar build rows b then set_log2 b (Qred (b_log2 b + d)) else b) rows.
+
+(* sex = Some true: female; Some false or None (no X bins to guess from): treated as male.
+   -1 on X for a female sample on a haploid-X reference, +1 for a male one on a diploid-X reference *)
+Definition x_adjusted (hap : bool) (sex : option bool) (build : option Center.parb) (rows : list bin) : list bin :=
+  let female := match sex with Some true => true | _ => false end in
+  if female && hap then shift_by (-1 # 1) build rows
+  else if negb female && negb hap then shift_by (1 # 1) build rows
+  else rows.
+
+Definition x_adjusted_segs (hap : bool) (sex : option bool) (build : option Center.parb) (segs : list seg) : list seg :=
+  map (fun sb => mkSeg (snd sb) (sg_extra (fst sb)))
+      (combine segs (x_adjusted hap sex build (map sg_bin segs))).
+
+(* ---- the rows ---------------------------------------------------------------------------------------- *)
+
+Definition named_geneb (g : string) : bool :=
+  negb (mem_string g ["-"; "."; "CGH"; "Antitarget"; "Background"; ""]%string).
+
+(* the bins of gene g on a chromosome: from its first to its last bin *)
+Definition own_bins (g : string) (crows : list bin) : list bin :=
+  slice crows (first_pos g crows) (S (last_pos g crows)).
+
+(* every named gene with its own bins: chromosomes in order of first appearance, genes of a
+   chromosome in order of first occurrence *)
+Definition named_groups (rows : list bin) : list group :=
+  flat_map (fun c => flat_map (fun g => if named_geneb g then [(g, own_bins g (chrom_rows c rows))] else [])
+                              (genes_in_order (chrom_rows c rows)))
+           (chroms_in_order rows).
+
+Definition gene_rows_spec (skip_low : bool) (rows : list bin) : list grow :=
+  flat_map (fun gr => match gene_stats skip_low (fst gr) (snd gr) with Some r => [r] | None => [] end)
+           (named_groups rows).
+
+(* a named gene whose weights sum to 0: its weight-averaged depth is undefined (the code raises) *)
+Definition zero_weight_gene (rows : list bin) : bool :=
+  existsb (fun gr => Qeq_bool (sumQ (map b_weight (snd gr))) 0) (named_groups rows).
+
+Definition enough_probes (min_probes : Z) (n : Z) : bool := (min_probes =? 0) || (min_probes <=? n).
+
+(* ---- headers and cells --------------------------------------------------------------------------------- *)
+
+Definition empty_header : list string := ["gene"; "chromosome"; "start"; "end"; "log2"]%string.
+
+Definition without_gene (cols : list string) : list string :=
+  filter (fun c => negb (String.eqb c "gene")) cols.
+
+(* gene first, then the bin table's other columns in their order, then probes if it was not there *)
+Definition gene_table_columns (ccols : list string) : list string :=
+  "gene"%string :: without_gene (ccols ++ (if mem_string "probes" ccols then [] else ["probes"%string])).
+
+(* the segment table's columns copied into the rows: those the bin table lacks, except depth / probes / weight *)
+Definition copied_columns (ccols scols : list string) : list string :=
+  filter (fun c => negb (mem_string c ccols) && negb (mem_string c ["depth"; "probes"; "weight"]%string)) scols.
+
+(* ... then the copied segment columns, probes (if new), segment_weight / segment_probes when the
+   segment table has weight / probes *)
+Definition seg_table_columns (ccols scols : list string) : list string :=
+  let base := ccols ++ copied_columns ccols scols in
+  "gene"%string ::
+  without_gene (base ++ (if mem_string "probes" base then [] else ["probes"%string])
+                     ++ (if mem_string "weight" scols then ["segment_weight"%string] else [])
+                     ++ (if mem_string "probes" scols then ["segment_probes"%string] else [])).
+
+Definition report_cell (r : grow) (extra : list (string * option Q)) (c : string) : cell :=
+  if String.eqb c "gene" then CS (r_gene r)
+  else if String.eqb c "chromosome" then CS (r_chr r)
+  else if String.eqb c "start" then CZ (r_start r)
+  else if String.eqb c "end" then CZ (r_end r)
+  else if String.eqb c "log2" then CQ (r_log2 r)
+  else if String.eqb c "depth" then CQ (Some (r_depth r))
+  else if String.eqb c "weight" then CQ (Some (r_weight r))
+  else if String.eqb c "probes" then CZ (r_probes r)
+  else if String.eqb c "segment_weight" then CQ (r_segw r)
+  else if String.eqb c "segment_probes" then match r_segp r with Some p => CZ p | None => CQ None end
+  else CQ (lookup_extra c extra).
+
+Definition has_required (ccols : list string) : Prop :=
+  Forall (fun c => In c ccols) ["chromosome"; "start"; "end"; "gene"; "log2"]%string.
+
+(* ---- the complete genemetrics table, without segments -------------------------------------------------- *)
+
+Definition genemetrics_table (ccols : list string) (rows' : list bin) (threshold : Q) (min_probes : Z)
+  (skip_low : bool) : option table :=
+  if zero_weight_gene rows' then None
+  else
+    let reaching := filter (fun r => reaches threshold (r_log2 r)) (gene_rows_spec skip_low rows') in
+    match reaching with
+    | [] => Some (empty_header, [])
+    | _ :: _ =>
+        let cols := gene_table_columns ccols in
+        Some (cols, map (fun r => map (report_cell r []) cols)
+                        (filter (fun r => enough_probes min_probes (r_probes r)) reaching))
+    end.
+
+(* ---- ... and given segments ----------------------------------------------------------------------------- *)
+
+(* the segments chromosome by chromosome (order of first appearance), table order within one *)
+Definition segments_in_order (segs : list seg) : list seg :=
+  flat_map (fun c => filter (fun s => String.eqb (seg_chr s) c) segs) (dedup (map seg_chr segs)).
+
+Definition seg_row (hw hp : bool) (s : seg) (xcols : list string) (r : grow) : frow :=
+  mkFrow (mkGrow (r_gene r) (r_chr r) (r_start r) (r_end r) (Some (b_log2 (sg_bin s)))
+                 (r_depth r) (r_weight r) (r_probes r)
+                 (if hw then Some (b_weight (sg_bin s)) else None)
+                 (if hp then Some (b_probes (sg_bin s)) else None))
+         (map (fun c => (c, lookup_extra c (sg_extra s))) xcols).
+
+Definition genemetrics_table_segments (ccols scols : list string) (rows' : list bin) (segs' : list seg)
+  (threshold : Q) (min_probes : Z) (skip_low : bool) : option table :=
+  let hw := mem_string "weight" scols in
+  let hp := mem_string "probes" scols in
+  let reaching := filter (fun s => Qle_bool threshold (Qabs (b_log2 (sg_bin s)))) (segments_in_order segs') in
+  if existsb (fun s => zero_weight_gene (bins_of_segment rows' (sg_bin s))) reaching then None
+  else
+    let body := flat_map (fun s => map (seg_row hw hp s (copied_columns ccols scols))
+                                       (gene_rows_spec skip_low (bins_of_segment rows' (sg_bin s))))
+                         reaching in
+    match body with
+    | [] => Some (empty_header, [])
+    | _ :: _ =>
+        let cols := seg_table_columns ccols scols in
+        Some (cols, map (fun r => map (report_cell (f_row r) (f_extra r)) cols)
+                        (filter (fun r => enough_probes min_probes
+                                            (if hp then match r_segp (f_row r) with Some p => p | None => 0 end
+                                             else r_probes (f_row r))) body))
+    end.
+
+(* ==== breaks: the complete, ordered list of rows ================================================== *)
+From CNV Require Import Model.Chromsort.
+
+Definition minZ (l : list Z) : Z := match l with [] => 0 | x :: t => fold_left Z.min t x end.
+
+Definition ignored_for_breaks (g : string) : bool :=
+  mem_string g ["-"; "."; "CGH"; "Antitarget"; "Background"]%string.
+
+(* the interval of gene g (whole bin names) on chromosome c: its bins' smallest start, largest end *)
+Definition gene_min_start (c g : string) (rows : list bin) : Z := minZ (map b_start (gene_bins c g rows)).
+Definition gene_max_end (c g : string) (rows : list bin) : Z := maxZ (map b_end (gene_bins c g rows)).
+Definition gene_starts (c g : string) (rows : list bin) : list Z := sortZ (map b_start (gene_bins c g rows)).
+
+(* the genes of chromosome c in the order get_gene_intervals lists them: first occurrence, then
+   stably sorted by their sorted lists of bin starts (Python list comparison) *)
+Definition genes_by_position (c : string) (rows : list bin) : list string :=
+  stable_sort (fun g g' => lex_le (gene_starts c g rows) (gene_starts c g' rows))
+              (dedup (map b_gene (filter (fun b => negb (ignored_for_breaks (b_gene b))) (chrom_rows c rows)))).
+
+(* the row of gene g at the boundary between the consecutive segments cur and next: the boundary lies
+   strictly inside the gene's interval and the gene's OWN bins number at least min_probes on each side *)
+Definition break_rows_at (min_probes : Z) (rows : list bin) (cur next : bin) (g : string) : list brow :=
+  let c := b_chr cur in
+  let e := b_end cur in
+  let own := gene_bins c g rows in
+  let left := Z.of_nat (countb (fun b => b_start b <? e) own) in
+  let right := Z.of_nat (countb (fun b => e <=? b_start b) own) in
+  if (gene_min_start c g rows <? e) && (e <? gene_max_end c g rows) && (min_probes <=? left) && (min_probes <=? right)
+  then [mkBrow g c e (Qred (b_log2 next - b_log2 cur)) left right]
+  else [].
+
+(* boundaries in segment-table order (consecutive rows of the same chromosome), genes by position *)
+Fixpoint breaks_unsorted (min_probes : Z) (rows segs : list bin) : list brow :=
+  match segs with
+  | cur :: ((next :: _) as t) =>
+      (if String.eqb (b_chr next) (b_chr cur)
+       then flat_map (break_rows_at min_probes rows cur next) (genes_by_position (b_chr cur) rows)
+       else [])
+      ++ breaks_unsorted min_probes rows t
+  | _ => []
+  end.
+
+(* the order of the result: by min(probes left, probes right), then by |change|, both descending *)
+Definition break_key_ge (x y : brow) : Prop :=
+  Z.min (k_left y) (k_right y) < Z.min (k_left x) (k_right x) \/
+  (Z.min (k_left y) (k_right y) = Z.min (k_left x) (k_right x) /\ (Qabs (k_change y) <= Qabs (k_change x))%Q).
+Definition same_break_key (z y : brow) : bool := bkey_ge z y && bkey_ge y z.
+
+(* ==== squash_genes: every field of every output row ================================================ *)
+From CNV Require Import Base.QNum.
+
+(* contract of the summary function (default: biweight location, C19_biloc_range): it stays within
+   the range of the values it summarises *)
+Definition est_within (est : list Q -> Q) : Prop :=
+  forall a, a <> [] -> (qmin a <= est a <= qmax a)%Q.
+
+(* the columns in the order squash_genes assumes: required columns, depth, weight, probes (optional) *)
+Definition squash_columns (has_probes : bool) : list string :=
+  ["chromosome"; "start"; "end"; "gene"; "log2"; "depth"; "weight"]%string
+  ++ (if has_probes then ["probes"%string] else []).
+
+(* a bin kept as it is *)
+Definition kept_row (has_probes : bool) (b : bin) : list cell :=
+  [CS (b_chr b); CZ (b_start b); CZ (b_end b); CS (b_gene b); CQ (Some (b_log2 b));
+   CQ (Some (b_depth b)); CQ (Some (b_weight b))] ++ (if has_probes then [CZ (b_probes b)] else []).
+
+(* two or more bins reduced to one: first bin's chromosome and start, last bin's end, the group's
+   label, the summary function of log2, of depth and of weight (each over the group's bins), the sum
+   of probes *)
+Definition squashed_row (est : list Q -> Q) (has_probes : bool) (label : string) (own : list bin) : list cell :=
+  match own with
+  | [] => []
+  | first :: _ =>
+      [CS (b_chr first); CZ (b_start first); CZ (b_end (last own first)); CS label;
+       CQ (Some (est (map b_log2 own))); CQ (Some (est (map b_depth own))); CQ (Some (est (map b_weight own)))]
+      ++ (if has_probes then [CZ (sumZ (map b_probes own))] else [])
+  end.
+
+(* an Antitarget / Background group is kept bin by bin unless squash_antitarget; a group of one bin is
+   kept as it is (with its own name); any other group becomes one row *)
+Definition squash_rows_of (est : list Q -> Q) (has_probes squash_antitarget : bool) (gr : group) : list (list cell) :=
+  match snd gr with
+  | [] => []
+  | [b] => [kept_row has_probes b]
+  | _ :: _ :: _ =>
+      if mem_string (fst gr) ["Antitarget"; "Background"]%string && negb squash_antitarget
+      then map (kept_row has_probes) (snd gr)
+      else [squashed_row est has_probes (fst gr) (snd gr)]
+  end.
